@@ -298,7 +298,7 @@ CLAIMS['C04'] = dict(category='proof', ref='5 Core A, 8 C04',
     note='Trusted: Lean kernel; axioms propext/Classical.choice/Quot.sound only; Go harness + line protocol + fact extractor; Go runtime semantics assumed by the model (see evidence.assumptions)')
 
 CLAIMS['C12'] = dict(category='proof', ref='8 C12', text=_CLIENT_TEXT % (
-    "Theorems (47, all histories / all reachable states; every history may contain acknowledgements that arrive before the sending call has "
+    "Theorems (57, all histories / all reachable states; every history may contain acknowledgements that arrive before the sending call has "
     "registered its request - no such exclusion is left since the repair of E5, 346378d): PUBREC answered by exactly PUBREL (C12_pubrec_pubrel); QoS 0 completes in the sending step "
     "(C12_qos0_completes_at_once); per-queue conservation and exactly-once FIFO completion (C12_queue_conservation, C12_exactly_once_fifo), a terminal ack "
     "fires exactly the longest terminal prefix, never before a request's own terminal ack, eagerly (C12_completion_timing, C12_completion_no_later, "
@@ -324,7 +324,11 @@ CLAIMS['C12'] = dict(category='proof', ref='8 C12', text=_CLIENT_TEXT % (
     "counterexamples showing every excluded class is needed (B3, late PUBREC, SUBACK code, auto id); acknowledgements inside the window, several outstanding pings and "
     "overlapping filters within one Subscribe request are admitted (C12_refines_spec_early_acks, C12_refines_spec_pings, C12_refines_spec_overlapping_filters; E5 - an "
     "acknowledgement processed before the registration was dropped -, the single ping slot and "
-    "E9 - one callback invocation per matching filter - were repaired, their witnesses are regression cases). The generator puts acknowledgements into "
+    "E9 - one callback invocation per matching filter - were repaired, their witnesses are regression cases); the ack queues of the client model are sessions.Ackqueue: "
+    "for each of Pub1ack, Pub2out, Pub2in, Suback, Unsuback and for Pingack, for every history of wait/ack/acked operations and for every history of client events, the list the model holds and the "
+    "requests it releases are the projection of the abstraction of the ring-based Ackqueue model driven by the corresponding Wait/Ack/Acked calls (C12_queue_is_ackqueue, C12_pings_are_ackqueue, "
+    "C12_client_queues_are_ackqueues, C12_queue_ops; composed with C13_refines; the bytes of request and acknowledgement and the OnComplete value enter as a parameter, the way back through Decode "
+    "under a named round-trip hypothesis: C12_queue_decodes). The generator puts acknowledgements into "
     "the window of publish, subscribe, unsubscribe and ping calls in every episode (own acknowledgement, that of an older request, PINGRESP with several pings outstanding).") +
     " PARTIAL: timing ('promptly') is not modelled; the step granularity of a sending call is {write, register} as delimited by the hook; the small-step "
     "model of ackmu abstracts the ack queue to one registered-flag per request and is tied to the source lexically (call order inside the five functions), "
